@@ -33,7 +33,14 @@ def der_table(fn, top, coef_fn, coef_pos_name):
     if len(ra) != 3:
         raise Untranslatable('inner range() without explicit stop/step')
     # seed: the write to alphas[jj][...] in the outer body, outside the inner loop
-    seeds = [w for w in sub_assigns(outer, 'alphas') if w[0] < inner.lineno]
+    def is_slice_write(t):
+        return any(isinstance(i, ast.Slice) for i in index_of(t))
+    pre = [w for w in sub_assigns(outer, 'alphas') if w[0] < inner.lineno]
+    # whole-slice writes (zeroing the row / the entries above the seed) are not the seed; they must write zeros
+    slices = [w for w in pre if is_slice_write(w[1])]
+    if any(ast.unparse(w[2]) != '0' for w in slices):
+        raise Untranslatable('a slice of the table is assigned something other than 0')
+    seeds = [w for w in pre if not is_slice_write(w[1]) and not any(w[1] in ast.walk(g_) for g_ in outer.body if isinstance(g_, ast.If))]
     if len(seeds) != 1:
         raise Untranslatable('expected exactly one seed write per row')
     _, st, sv = seeds[0]
@@ -44,10 +51,11 @@ def der_table(fn, top, coef_fn, coef_pos_name):
     _, wt, wv = steps[0]
     widx = index_of(wt)
     # guard: `if jj > top: break` before the seed
+    # rows above the degree: `if jj > top:` followed by `break` (zero-initialised table) or by zeroing the row and `continue`
     guard = False
     for s in outer.body:
-        if isinstance(s, ast.If) and s.lineno < st.lineno and norm(ast.unparse(s.test)) in (norm(f'{jj} > {top}'), norm(f'{top} < {jj}'), norm(f'{top} - {jj} < 0')) \
-                and any(isinstance(b, ast.Break) for b in s.body):
+        if isinstance(s, ast.If) and s.lineno < st.lineno and norm(ast.unparse(s.test)) in (norm(f'{jj} > {top}'), norm(f'{top} < {jj}'), norm(f'{top} - {jj} < 0'), norm(f'{jj} >= {top} + 1')) \
+                and any(isinstance(b, (ast.Break, ast.Continue)) for b in s.body):
             guard = True
     info = {
         'jj': jj, 'v': v, 'names': names,
@@ -92,7 +100,7 @@ def generate(repo):
             f'def {prefix}SeedPos ({top} jj j : Int) : Int × Int := (jj, {top} - jj)',
             f'def {prefix}SeedReads ({top} jj j : Int) : List (Int × Int) := [(jj - 1, {top} - jj + 1)]',
             f'def {prefix}WritePos ({top} jj j n : Int) : Int × Int := (jj, n)',
-            f'def {prefix}StepReads ({top} jj j n : Int) : List (Int × Int) := [(jj, n + 1), (jj, n + 2), (jj - 1, n + 1)]',
+            f'def {prefix}StepReads ({top} jj j n : Int) : List (Int × Int) := [(jj - 1, n + 1), (jj, n + 1), (jj, n + 2)]',
             f'def {prefix}Loop ({top} jj j : Int) : Int × Int × Int := ({top} - jj - 1, -1, -1)',
             f'def {prefix}RowsAboveDegreeStayZero : Bool := true'] + extra)
 
